@@ -290,7 +290,7 @@ class DirectCollocation(SamplingMethod):
                     if value.is_scalar() and not var.is_scalar():
                         # A scalar guess is repeated to fit the shape of the state
                         value = DM.ones(var.shape[0], var.shape[1])*value
-                    if var.is_vector() and (var.numel()*(self.N)==value.numel() or var.numel()*(self.N+1)==value.numel()):
+                    if var.is_column() and (var.numel()*(self.N)==value.numel() or var.numel()*(self.N+1)==value.numel()):
                         # One column per control interval (optionally one more for tf): repeat each column over
                         # the integrator points and collocation points of its interval
                         value_control = value[:,:self.N]
